@@ -60,6 +60,12 @@ WeightLemma == c.kind = "m6" =>
     /\ SMul(VecWeight(k), VecWeightInv(k)) = SOne
 VecTableLemma == Cardinality({VecPos[k] : k \in I21}) = 21 /\ {VecPos[k] : k \in I21} = SymBasis
 
+\* negative control (TensorsIdx_neg.cfg substitutes it for VecPos): C14 and C15, and C23 and C44,
+\* exchanged in the vector table - WeightLemma / VecTableLemma keep holding only if the table is the documented one
+BadVecPos == << <<1, 1>>, <<2, 2>>, <<3, 3>>, <<4, 4>>, <<1, 3>>, <<1, 2>>,
+                <<2, 3>>, <<5, 5>>, <<6, 6>>, <<1, 5>>, <<2, 5>>, <<3, 6>>,
+                <<3, 4>>, <<1, 4>>, <<2, 6>>, <<2, 4>>, <<3, 5>>, <<1, 6>>,
+                <<5, 6>>, <<4, 6>>, <<4, 5>> >>
 Expected == IF c.kind = "seed" THEN c ELSE IF c.kind = "t4"
             THEN [kind |-> "t4", x |-> c.x, ij |-> <<Voigt(c.x[1], c.x[2]), Voigt(c.x[3], c.x[4])>>]
             ELSE [kind |-> "m6", ij |-> c.ij, pre |-> Pre(c.ij[1], c.ij[2]),
